@@ -168,6 +168,15 @@ func (r *Recorder) LabelIf(c bool, l string) {
 
 func (r *Recorder) Count(k string, n int) { r.mu.Lock(); r.extra[k] += int64(n); r.mu.Unlock() }
 
+// Max keeps the maximum of v under key k (merged by max per shard, then summed by the driver only if equal keys: use distinct keys for maxima).
+func (r *Recorder) Max(k string, v int64) {
+	r.mu.Lock()
+	if v > r.extra[k] {
+		r.extra[k] = v
+	}
+	r.mu.Unlock()
+}
+
 func (r *Recorder) Excluded(what string) { r.mu.Lock(); r.excluded[what]++; r.mu.Unlock() }
 
 func (r *Recorder) SetExhaustive(b bool) { r.mu.Lock(); r.exhaustive = b; r.mu.Unlock() }
